@@ -5,3 +5,4 @@ open OrxPar
 #print axioms C04_nested_loop
 #print axioms C04_for_each
 #print axioms C04_count_all_schedules
+#print axioms C04_for_each_all_schedules
